@@ -1057,6 +1057,43 @@ def run(tier, seed_):
                 time.sleep(0.7)
         cth = threading.Thread(target=continuous_user, daemon=True)
         cth.start()
+        # the same over gRPC, on ONE connection (bi-stream registered): a connection that used the token while it was valid
+        # must not keep being served with it afterwards
+        gcont = {"log": []}
+
+        def continuous_grpc_user():
+            gc = None
+            try:
+                t0 = time.time()
+                tok = target.api_login()
+                if not tok or tok == "AUTH_DISABLED":
+                    gcont["error"] = "login failed"
+                    return
+                gc = grpcrig.GrpcClient(target.grpc_addr, wd, name="grpcc-cont")
+                gc.open_stream("c")
+                k = 0
+                while time.time() - t0 < LOGIN_TTL + 6.0:
+                    tc = time.time()
+                    k += 1
+                    if k % 2:
+                        rr = gc.request("c", "ConfigQueryRequest", {"dataId": "c16-cfg", "group": "DEFAULT_GROUP", "tenant": ""}, headers={"accessToken": tok})
+                        served = bool(rr.get("ok")) and rr.get("type") != "ErrorResponse" and "seed-content-in-public" in json.dumps(rr.get("body"))
+                    else:
+                        rr = gc.request("c", "ServiceQueryRequest", {"namespace": "", "groupName": "DEFAULT_GROUP", "serviceName": "c16-svc", "cluster": "", "healthyOnly": False, "udpPort": 0},
+                                        headers={"accessToken": tok})
+                        served = bool(rr.get("ok")) and rr.get("type") != "ErrorResponse" and "10.16.0.10" in json.dumps(rr.get("body"))
+                    gcont["log"].append((round(tc - t0, 2), "served" if served else "refused" if grpc_refused_auth(rr) else "other:%s" % short(rr)))
+                    time.sleep(0.7)
+            except Exception as e:      # noqa: the observation is optional, its absence is reported
+                gcont["error"] = repr(e)[:200]
+            finally:
+                if gc is not None:
+                    try:
+                        gc.stop()
+                    except Exception:
+                        pass
+        gth = threading.Thread(target=continuous_grpc_user, daemon=True)
+        gth.start()
         fper = Fingerprinter(target)
         protected, exempt, outside, kept = discover_phase(out, tier, rnd, disc, tok_d)
         wait = t_login + LOGIN_TTL + 2.5 - time.time()
@@ -1077,6 +1114,24 @@ def run(tier, seed_):
                 out.extra["token_in_continuous_use"] = {"requests": len(cont["log"]), "last_200_at_s": max([x[0] for x in cont["log"] if x[1] == 200] or [None]), "first_403_at_s": min([x[0] for x in cont["log"] if x[1] == 403] or [None])}
             else:
                 out.extra["token_in_continuous_use"] = "inconclusive: %s" % cont["log"][:6]
+        gth.join(LOGIN_TTL + 14)
+        if gcont.get("log") and not gcont.get("error"):
+            okb = [x for x in gcont["log"] if x[0] < LOGIN_TTL - 0.8]
+            late = [x for x in gcont["log"] if x[0] > LOGIN_TTL + 2.0]
+            out.evaluations += len(gcont["log"])
+            if okb and all(st == "served" for _, st in okb) and late:
+                served = [x for x in late if x[1] == "served"]
+                if served:
+                    out.violation("grpc-invalid-token-accepted/expired-token-in-continuous-use-on-one-connection/ConfigQueryRequest+ServiceQueryRequest",
+                                  {"login_ttl_s": LOGIN_TTL, "request_period_s": 0.7, "answers_(age_s,verdict)": gcont["log"], "served_after_expiry": len(served)})
+                else:
+                    out.shape("continuous-use/grpc-connection/expired-token-refused")
+                out.extra["token_in_continuous_use_on_one_grpc_connection"] = {"requests": len(gcont["log"]), "last_served_at_s": max([x[0] for x in gcont["log"] if x[1] == "served"] or [None]),
+                                                                             "first_refused_at_s": min([x[0] for x in gcont["log"] if x[1] == "refused"] or [None])}
+            else:
+                out.extra["token_in_continuous_use_on_one_grpc_connection"] = "inconclusive: %s" % gcont["log"][:6]
+        else:
+            out.extra["token_in_continuous_use_on_one_grpc_connection"] = "not observed: %s" % gcont.get("error")
         fp0 = fper.take()
         if not any(k.startswith("config ") for k in fp0) or not any(" instance " in k for k in fp0) or len(fp0["namespaces"]) < 2:
             raise Inconclusive("seeded data not visible in the fingerprint: %s" % sorted(fp0))
